@@ -25,6 +25,7 @@ import (
 	"github.com/yandex/pandora/core/engine"
 	"github.com/yandex/pandora/core/register"
 	"go.uber.org/zap"
+	"golang.org/x/net/http2"
 
 	"verifsim/simfs"
 	"verifsim/simnet"
@@ -190,18 +191,49 @@ func testCert() tls.Certificate {
 }
 
 // startHTTPTarget starts a real net/http server on the simulated network (call inside the bubble).
+// tlsOpts tunes the TLS side of the target (http2 checks).
+type tlsOpts struct {
+	H2           bool         // offer and serve HTTP/2
+	FailHandshake func(n int) bool // the n-th TLS handshake (0-based) is answered with a fatal alert (internal_error)
+}
+
 func startHTTPTarget(n *simnet.Net, addr string, useTLS bool, script func(n int, r *seenReq) respScript) *httpTarget {
+	return startHTTPTargetTLS(n, addr, useTLS, tlsOpts{}, script)
+}
+
+func startHTTPTargetTLS(n *simnet.Net, addr string, useTLS bool, opts tlsOpts, script func(n int, r *seenReq) respScript) *httpTarget {
 	ln, err := n.Listen(addr)
 	if err != nil {
 		panic(err)
 	}
 	t := &httpTarget{t0: time.Now(), Script: script}
 	var l net.Listener = ln
+	t.srv = &http.Server{Handler: t, ErrorLog: nil}
 	if useTLS {
-		l = tls.NewListener(ln, &tls.Config{Certificates: []tls.Certificate{testCert()}, NextProtos: []string{"http/1.1"}})
+		cfg := &tls.Config{Certificates: []tls.Certificate{testCert()}, NextProtos: []string{"http/1.1"}}
+		if opts.H2 {
+			http2.ConfigureServer(t.srv, &http2.Server{})
+			cfg.NextProtos = []string{"h2", "http/1.1"}
+		}
+		if opts.FailHandshake != nil {
+			var hmu sync.Mutex // nosim
+			hn := 0
+			base := cfg
+			cfg = base.Clone()
+			cfg.GetConfigForClient = func(*tls.ClientHelloInfo) (*tls.Config, error) {
+				hmu.Lock()
+				k := hn
+				hn++
+				hmu.Unlock()
+				if opts.FailHandshake(k) {
+					return nil, fmt.Errorf("injected TLS handshake failure #%d", k)
+				}
+				return nil, nil
+			}
+		}
+		l = tls.NewListener(ln, cfg)
 	}
 	t.ln = l
-	t.srv = &http.Server{Handler: t, ErrorLog: nil}
 	go func() { // nosim
 		t.srv.Serve(l)
 	}()
